@@ -29,7 +29,9 @@ RULE = ("(1) modelled parsers, byte for byte: PE generator of the shared PE mode
         "values 0,1,2,8,len-1,len,len+1,len/2,2^31-1,2^31,2^32-16,2^32-2,2^32-1; truncation at every byte for files <= 2 KiB (thorough) or "
         "at every field boundary + 176 spread positions; CFB self-referential DIFAT/FAT/mini-FAT/directory chains; tar member size/name "
         "fields of the upload streams) and seeded byte-level mutation (flip, set interesting value, insert, delete, duplicate range, "
-        "truncate). (3) POST /sign on the real handler with crafted bodies incl. an AppX upload holding an .exe with "
+        "truncate); synthetic ZIPs whose central entry announces every subset of {usize, csize, offset} = 0xFFFFFFFF with a ZIP64 extra record of "
+        "0/4/8/12/16/20/24/28 bytes in fixed and in APPNOTE layout, through lib:zipread, lib:ziptar, verify:apk, sign:jar/apk/appx/vsix and the "
+        "server. (3) POST /sign on the real handler with crafted bodies incl. an AppX upload holding an .exe with "
         "SizeOfOptionalHeader < 2 / FileAlignment = 0 (DigestPE runs in a helper goroutine). Every op runs in a worker child with "
         "RLIMIT_AS, a 4 s deadline and recover(); a dead worker is an outcome (abort). Non-trivial = distinct op on a mutated or crafted input.")
 ASSUMPTIONS = ["64-bit int (Go on amd64/arm64): the models use unbounded naturals where Go computes in int",
@@ -240,6 +242,12 @@ def matches_known(k, op, il, mres, tag):
         return _dmg.matches_known(k, op, il, mres, tag)
     if _tok(op) == "XAR":
         return _xar.matches_known(k, op, il, mres, tag)
+    f = op.split(" ")
+    if _tok(op) == "C11" and len(f) == 5 and "zipsyn:" in f[3] and f[4] == "-" and site.startswith("zipslicer."):
+        # the trigger predicate of the listed zipslicer panics (directory blob cut short, entry lengths beyond the blob, directory
+        # offset beyond the file) is decidable here: a zipsyn base is a structurally complete archive, unedited - whatever panics
+        # in the directory parser on it is something else (harness/c11/zipsyn.go: ZIP64 record shorter than announced)
+        return False
     if outcome == "alloc" and il == "timeout":
         # a multi-GiB request may also run into the deadline while the pages are being zeroed: same finding, same entry points
         return _entry(op) in ident.get("entries", [])
